@@ -107,10 +107,13 @@ func (p *Program) Anchor(key string) *ssa.Function {
 	recvOK := func(fn *ssa.Function) bool {
 		return def.recv == "*" || recvName(fn) == def.recv
 	}
-	var byName, bySig []*ssa.Function
+	var byName, bySig, byBareName []*ssa.Function
 	for _, fn := range p.SrcFuncs() {
 		if fn.Parent() != nil || !strings.HasSuffix(fnPkgPath(fn), "/"+def.pkg) {
 			continue
+		}
+		if fn.Name() == key {
+			byBareName = append(byBareName, fn)
 		}
 		if fn.Name() == key && recvOK(fn) {
 			byName = append(byName, fn)
@@ -125,6 +128,8 @@ func (p *Program) Anchor(key string) *ssa.Function {
 		res = byName[0]
 	case len(byName) == 0 && len(bySig) == 1:
 		res = bySig[0] // renamed: the only function of the package with the anchor's shape
+	case len(byName) == 0 && len(byBareName) == 1:
+		res = byBareName[0] // same name, turned into (or from) a method
 	}
 	m[key] = res
 	return res
